@@ -277,6 +277,21 @@ def case_C04(seed):
     unique = rnd.random() < 0.5
     viol, done = [], []
     nt = False
+    # the moves the MAP offers from an edge are exactly: the edges leaving its end node, plus the parallel roads declared as
+    # linked to THIS directed edge (a walk is only as good as the neighbour query behind every lattice step)
+    g_ = case['graph']
+    for a_, (pa_, nb_) in g_.items():
+        for b_ in nb_:
+            if b_ not in g_ or b_ == a_:
+                continue
+            got_ = {(t[0], t[2]) for t in mp.edges_nbrto((a_, b_)) if t[0] != t[2]}
+            exp_ = {(b_, c_) for c_ in g_[b_][1] if c_ in g_ and c_ != b_} | set((linked or {}).get((a_, b_), ()))
+            if got_ != exp_ and not viol:
+                viol.append(('C04:map-offers-a-move-that-is-not-in-the-road-graph' if got_ - exp_ else 'C04:map-withholds-a-move-of-the-road-graph',
+                             f"edges_nbrto({(a_, b_)}) offers {sorted(got_, key=str)}, the road graph and the declared links give {sorted(exp_, key=str)}",
+                             {'case': U.case_repr(case), 'linked_edges': {str(k): sorted(map(str, v)) for k, v in (linked or {}).items()}, 'edge': [str(a_), str(b_)]}))
+    if viol:
+        return {'nontrivial': True, 'violations': viol, 'sample': {'case': U.case_repr(case)}}
     for op in ops:
         tr = case['trace']
         try:
